@@ -4,7 +4,7 @@
    action from an address that has not joined, game action with missing/invalid parameters.
 *)
 From Coq Require Import ZArith NArith List Bool Arith.
-From NSG Require Import Base.Prelude Model.Defender Model.Coord Proofs.CoordBase Proofs.CoordInv Proofs.CoordInvConn Proofs.CoordInvDispatch Proofs.CoordInvHandler Proofs.CoordProps Proofs.CoordDirect Proofs.CoordInv2 Proofs.CoordAgentStep Proofs.CoordBarrier.
+From NSG Require Import Base.Prelude Model.Defender Model.Coord Proofs.CoordBase Proofs.CoordInv Proofs.CoordInvConn Proofs.CoordInvDispatch Proofs.CoordInvHandler Proofs.CoordProps Proofs.CoordDirect Proofs.CoordInv2 Proofs.CoordAgentStep Proofs.CoordBarrier Proofs.CoordMeasure Proofs.CoordIsolation.
 Import ListNotations.
 
 (* garbage: BAD_REQUEST from the dispatcher; agents, world, events, trajectory files, handlers and all other connections unchanged *)
@@ -44,6 +44,27 @@ Theorem C09_frame :
         @In (@handler V G) h (@handlers V W G s) /\ @h_id V G h <> id).
 Proof. exact (@respond_frame). Qed.
 
+(* whatever the message, the handler working for address c0 leaves the record of every other agent untouched *)
+Theorem C09_others :
+  forall (V W G : Type) (wstep : W -> V -> G -> W * V) (winit : W -> role -> W * V)
+         (goal : role -> V -> bool) (detect : list G -> G -> bool) (cfg : config) 
+         (s : @state V W G) (id : nat) (c0 : addr) (m : @msg G) (c : addr),
+       c <> c0 ->
+       @alookup (@agent V G) c (@agents V W G (@h_start V W G wstep winit goal detect cfg s id c0 m)) =
+       @alookup (@agent V G) c (@agents V W G s).
+Proof. exact (@h_start_others). Qed.
+
+(* and only game actions and joins can touch the world or the trajectory files *)
+Theorem C09_world :
+  forall (V W G : Type) (wstep : W -> V -> G -> W * V) (winit : W -> role -> W * V)
+         (goal : role -> V -> bool) (detect : list G -> G -> bool) (cfg : config) 
+         (s : @state V W G) (id : nat) (c0 : addr) (m : @msg G),
+       (forall (act : G) (valid : bool), m <> @MGame G act valid) ->
+       (forall info : option (N * option role), m <> @MJoin G info) ->
+       @world V W G (@h_start V W G wstep winit goal detect cfg s id c0 m) = @world V W G s /\
+       @files V W G (@h_start V W G wstep winit goal detect cfg s id c0 m) = @files V W G s.
+Proof. exact (@h_start_world_frame). Qed.
+
 (* the dispatcher keeps serving *)
 Theorem C09_alive :
   forall (V W G : Type) (s : @state V W G),
@@ -77,5 +98,7 @@ Proof. vm_compute. repeat split; reflexivity. Qed.
 Print Assumptions C09_garbage.
 Print Assumptions C09_reject.
 Print Assumptions C09_frame.
+Print Assumptions C09_others.
+Print Assumptions C09_world.
 Print Assumptions C09_alive.
 Print Assumptions C09_no_replay.
